@@ -325,6 +325,10 @@ class Evaluator:
             return xn == yn
         if isinstance(x, SRef) and y is None:
             return x.sl.obj is None
+        if isinstance(x, SRef) and isinstance(y, SRef):
+            c = self.dom.concrete
+            return (x.sl.obj == y.sl.obj and x.sl.path == y.sl.path and c(x.sl.off) == c(y.sl.off)
+                    and c(x.sl.len) is not None and c(x.sl.len) == c(y.sl.len))
         if isinstance(x, (bool, tuple)) and isinstance(y, (bool, tuple)) and not self.is_intterm(x) and not self.is_intterm(y):
             return mk_iff(x, y)
         if isinstance(x, int) and isinstance(y, int):
@@ -380,6 +384,22 @@ class Evaluator:
                 e = self.as_int(self.index(base, i, old))
                 acc = self.dom.s_bin(self.st, "+", acc, self.dom.s_bin(self.st, "*", e, self.dom.s_const(1 << (width * i))))
             return acc
+        if name == "sliceof":
+            base = self.ev(args[0], old)
+            lo = self.conc(self.ev(args[1], old))
+            hi = self.conc(self.ev(args[2], old))
+            if isinstance(base, Ref):
+                t = self.run.loc_type(base.ptr.obj, base.ptr.path)
+                n = self.prog.array_len(t)
+                mk = self.run.mk_int
+                return SRef(SliceV(base.ptr.obj, base.ptr.path, mk(lo, 64), mk(hi - lo, 64), mk(n - lo, 64)), base.old)
+            raise VerifError("sliceof %r" % (base,))
+        if name == "fresh":
+            v = self.ev(args[0], old)
+            o = v.ptr.obj if isinstance(v, Ref) else (v.sl.obj if isinstance(v, SRef) else None)
+            if o is None:
+                return False
+            return o not in self.run.pre_objs and self.run.objs[o].origin in ("local", "alloc", "result")
         if name == "isnil":
             v = self.ev(args[0], old)
             if isinstance(v, Ref):
